@@ -39,16 +39,30 @@ def log(*a):
 _built = {}
 
 
+def repo_dir():
+    """/repo, unless VERIF_REPO names a scratch checkout (used only to try seeded changes in parallel)."""
+    return os.environ.get('VERIF_REPO', '/repo')
+
+
 def build_harness(race=False, tags='verif', cmd='vrun'):
-    """Rebuilds the harness binary from /repo's working tree."""
-    key = (race, tags, cmd)
+    """Rebuilds the harness binary from the repository's working tree."""
+    repo = repo_dir()
+    key = (race, tags, cmd, repo)
     if key in _built:
         return _built[key]
     os.makedirs(OUT, exist_ok=True)
     env = dict(os.environ, **GOENV)
-    shutil.copyfile('/repo/go.sum', os.path.join(HARNESS, 'go.sum'))
-    out = os.path.join(OUT, cmd + ('_race' if race else ''))
+    suffix = '' if repo == '/repo' else '_' + hashlib.sha1(repo.encode()).hexdigest()[:8]
+    out = os.path.join(OUT, cmd + ('_race' if race else '') + suffix)
     args = ['go', 'build', '-tags', tags]
+    if repo == '/repo':
+        shutil.copyfile('/repo/go.sum', os.path.join(HARNESS, 'go.sum'))
+    else:
+        modfile = os.path.join(OUT, 'alt%s.mod' % suffix)
+        mod = open(os.path.join(HARNESS, 'go.mod')).read().replace('=> /repo', '=> ' + repo)
+        open(modfile, 'w').write(mod)
+        shutil.copyfile('/repo/go.sum', modfile[:-4] + '.sum')
+        args += ['-modfile', modfile]
     if race:
         args += ['-race', '-gcflags=all=-d=checkptr=0']
     args += ['-o', out, './cmd/' + cmd]
